@@ -150,7 +150,9 @@ def c09(tier, rng, fam='C09'):
                     b.step('recv', c=3, n=4)
                     b.step('hdr', c=3)
                 b.step('dlv', dir='s2c', n=j)
-                b.step('fault', what='cread')
+                # the kinds of error a transport reports a dead connection with: plain, io.EOF, a net.Error
+                # calling itself temporary (ETIMEDOUT), an error wrapping context.Canceled
+                b.step('fault', what=['cread', 'creadeof', 'creadtmp', 'creadctx'][(j + (wr == 'failing') + len(base)) % 4])
                 if wr == 'failing':
                     b.step('fault', what='cwrite')
                 b.q()
@@ -164,15 +166,15 @@ def c09(tier, rng, fam='C09'):
                     b.step('recv', c=3)
                 out.append(b.q().done())
     # the failure is reported by the transport as io.EOF (net.Pipe, TCP): still a failure for every call
-    for kind in ('bidi', 'ss', 'unary'):
-        b = B(fam, '%s read failure reported as io.EOF' % kind, ser=True)
+    for kind, how in [(k_, h_) for k_ in ('bidi', 'ss', 'unary') for h_ in ('creadeof', 'creadtmp', 'creadctx')]:
+        b = B(fam, '%s read failure reported as %s' % (kind, {'creadeof': 'io.EOF', 'creadtmp': 'a "temporary" net.Error', 'creadctx': 'an error wrapping context.Canceled'}[how]), ser=True)
         if kind == 'unary':
             b.step('ucall', c=1, pay='q', hp=[])
         else:
             b.step('sopen', c=1, kind=kind, hp=[dict(o='recv'), dict(o='send', pay='r0'), dict(o='ctxwait'), ret(code=1, msg='gone')])
             b.step('send', c=1, pay='x')
             b.step('recv', c=1, n=3)
-        b.step('fault', what='creadeof')
+        b.step('fault', what=how)
         b.q()
         b.step('ucall', c=20, pay='after', to=H, hp=[ret(pay='x')])
         out.append(b.q().done())
@@ -198,7 +200,7 @@ def c09(tier, rng, fam='C09'):
     # the next in the connection's queue for it ...) when the read fails; every later Recv returns
     for kind in ('bidi', 'ss'):
         for k in (1, 2, 3):
-            for how in ('cread', 'creadeof'):
+            for how in ('cread', 'creadeof', 'creadtmp'):
                 for wr in ('writable', 'failing'):
                     b = B(fam, '%s with %d unread responses when the read fails (%s), write side %s' % (kind, k, how, wr), ser=True)
                     b.step('sopen', c=1, kind=kind, hp=[dict(o='recv')] + [dict(o='send', pay='r%d' % i) for i in range(k)] + [dict(o='ctxwait'), ret(code=1, msg='gone')])
@@ -404,6 +406,12 @@ def srv_alphabet():
     A['u_rawbody'] = lambda i, c: env(i, m=U, braw='@9:%d' % (i + 7), src='cliX', dst='srv', c=c)
     A['u_baddst'] = lambda i, c: env(i, m=U, b='q', src='cliX', dst='other', c=c)
     A['u_badmd'] = lambda i, c: env(i, m=U, b='q', src='cliX', dst='srv', md=[['k-bin', '!!!notbase64']], c=c)
+    # undecodable values of every length class mod 4 (unpadded / truncated base64 and plain garbage)
+    A['u_badmd_len1'] = lambda i, c: env(i, m=U, b='q', src='cliX', dst='srv', md=[['k-bin', '*']], c=c)
+    A['u_badmd_len5'] = lambda i, c: env(i, m=U, b='q', src='cliX', dst='srv', md=[['k-bin', 'QUJD*']], c=c)
+    A['u_badmd_len2'] = lambda i, c: env(i, m=U, b='q', src='cliX', dst='srv', md=[['k-bin', '*=']], c=c)
+    A['s_open_badmd_len1'] = lambda i, c: env(i, m=S, src='cliX', dst='srv', md=[['x-bin', '%']], c=c)
+    A['s_open_badmd_len5'] = lambda i, c: env(i, m=S, src='cliX', dst='srv', md=[['x-bin', 'QUJD%']], c=c)
     A['s_open'] = lambda i, c: env(i, m=S, src='cliX', dst='srv', c=c)
     A['s_open_ss'] = lambda i, c: env(i, m='/verif.Svc/SS', src='cliX', dst='srv', c=c)
     A['s_open_baddst'] = lambda i, c: env(i, m=S, src='cliX', dst='nobody', c=c)
@@ -504,6 +512,9 @@ def cli_alphabet():
     A['nohdr_body'] = lambda i, m: env(i, noh=True, b='nh')
     A['nohdr_trailer'] = lambda i, m: env(i, noh=True, t=[], st=(0, 'OK'))
     A['badmd_hdr'] = lambda i, m: env(i, m=m, b='x', md=[['h-bin', '***']])
+    A['badmd_hdr_len1'] = lambda i, m: env(i, m=m, b='x', md=[['h-bin', '*']])
+    A['badmd_hdr_len5'] = lambda i, m: env(i, m=m, b='x', md=[['h-bin', 'QUJD*']])
+    A['badmd_trailer_len1'] = lambda i, m: env(i, m=m, st=(0, 'OK'), t=[['t-bin', '*']])
     A['badmd_trailer'] = lambda i, m: env(i, m=m, st=(0, 'OK'), t=[['t-bin', '***']])
     # undecodable header metadata on an envelope that also ends the call (trailers-only replies)
     A['badmd_hdr_close_err'] = lambda i, m: env(i, m=m, md=[['h-bin', '***']], st=(7, 'denied'), t=[])
@@ -816,6 +827,23 @@ def c14(tier, rng, fam='C14'):
             out.append(b.q().done())
     # late messages for a finished stream (some encode to zero bytes) must not leave anything registered
     out += late_messages(fam)
+    # a unary call given up (cancel / deadline) while its reply is still on its way - or never comes: nothing
+    # stays registered for it, whether or not the reply turns up later
+    for how in ('cancel', 'deadline'):
+        for late in (False, True):
+            b = B(fam, 'unary call given up by %s, its reply %s' % (how, 'arrives later' if late else 'never arrives'), ser=True, manual=True)
+            b.step('auto', dir='c2s', on=True)
+            b.step('ucall', c=1, pay='q1', hp=[ret(pay='p1')], **({'to': 20} if how == 'deadline' else {}))
+            b.q()
+            if how == 'cancel':
+                b.step('cancel', c=1)
+            else:
+                b.step('adv', ms=21)
+            b.q()
+            if late:
+                b.step('ucall', c=2, pay='q2', hp=[ret(pay='p2')])
+                b.step('dlv', dir='s2c', n=-1)
+            out.append(b.q().done())
     return out
 
 
